@@ -38,7 +38,9 @@ class EEMSRead(Command):
     def execute(self, **kwargs):
         path = kwargs["InFileName"]
         variable_name = kwargs["InFieldName"]
-        data_type = kwargs.get("DataType", "Float")
+        data_type = kwargs.get("DataType", numpy.float64)
+        # Several type names share a numeric type, so the checks below need the name as it was given
+        type_name = self.get_argument_value("DataType", "Float")
 
         with Dataset(kwargs["InFileName"], "r") as dataset:
             if kwargs["InFieldName"] not in dataset.variables:
@@ -47,8 +49,8 @@ class EEMSRead(Command):
             variable = dataset[variable_name]
             data = variable[:]
 
-        if self.get_argument_value("DataType", "Float") in ("Positive Integer", "Positive Float") and data.min() < 0:
-            raise InvalidPositiveData(path, kwargs["DataType"], lineno=self.lineno)
+        if type_name in ("Positive Integer", "Positive Float") and data.min() < 0:
+            raise InvalidPositiveData(path, type_name, lineno=self.lineno)
 
         if numpy.issubdtype(data.dtype, numpy.float64) and data_type in (
             int,
@@ -63,7 +65,7 @@ class EEMSRead(Command):
             fill_value=999999 if data_type in (int, numpy.uint) else None,
         )
 
-        if kwargs.get("DataType", "Float") == "Fuzzy":
+        if type_name == "Fuzzy":
             fuzzy_pad = 0.01 * (FUZZY_MAX - FUZZY_MIN)
 
             if data.max() > FUZZY_MAX + fuzzy_pad or data.min() < FUZZY_MIN - fuzzy_pad:
@@ -77,11 +79,11 @@ class EEMSRead(Command):
         if "MissingValue" in kwargs:
             missing_value = (
                 int(kwargs["MissingValue"])
-                if numpy.issubdtype(result.mask.dtype, int)
+                if numpy.issubdtype(result.dtype, numpy.integer)
                 else float(kwargs["MissingValue"])
             )
 
-            self.result.mask = numpy.where(result.data == missing_value, True, result.mask or False)
+            result.mask = numpy.ma.getmaskarray(result) | (result.data == missing_value)
 
         result.data[result.mask] = result.fill_value
 
